@@ -195,8 +195,8 @@ let () =
           let s = zmax (max_abs pa) (zmax (max_abs pb) (if tr = [] then z_of_int 1 else max_abs (tri_pts tr))) in
           let rr = zmax (shr s 20) (z_of_int 1) in
           let ba = with_boxes ta and bb = with_boxes tb and br = with_boxes tr in
-          let sa = List.filter (fun p -> inside ta p && not (near3 p ba rr)) (grid 3 (bbox_pts pa)) in
-          let sb = List.filter (fun p -> inside tb p && not (near3 p bb rr)) (grid 4 (bbox_pts pb)) in
+          let sa = List.filter (fun p -> inside ta p && not (near3 p ba rr)) (grid 4 (bbox_pts pa)) in
+          let sb = List.filter (fun p -> inside tb p && not (near3 p bb rr)) (grid 3 (bbox_pts pb)) in
           let origin_in_b = inside tb ((Z0, Z0), Z0) in
           let r_closed = (let n, it = mesh_itris r in r.nt = 0 || (n = r.nv && check_mesh (z_of_int n) it)) in
           if op = "sum" then begin
